@@ -236,6 +236,37 @@ def check(case) -> CaseResult:
         if same_struct(back, "denorm.inv"):
             close(back, X, tol_rt, "denorm.roundtrip")
 
+    # ---- Denormalize with integer-typed bounds (int32 arrays; Python ints for scalar leaves): min < max still holds, and
+    # the end points / the affine map are the same real-valued ones (odd widths have a half-integer centre).
+    def _ib(s, hi_):
+        a = onp.floor(_arr(s["lo"], s["L"]).astype(onp.float64)).astype(onp.int32)
+        if hi_:
+            a = a + onp.maximum(1, onp.ceil(_arr(s["gap"], s["L"]).astype(onp.float64))).astype(onp.int32)
+        return int(a) if not s["L"] else jnp.asarray(a)
+
+    ilo, ihi = build(spec, lambda s: _ib(s, False)), build(spec, lambda s: _ib(s, True))
+    ILO, IHI = flat(ilo), flat(ihi)
+    if any(((b - a) % 2 == 1).any() for a, b in zip(ILO, IHI)):
+        res.label("int_bounds_odd_width")
+    try:
+        iden = Denormalize.init(ilo, ihi)
+    except Exception as e:
+        res.fail("denorm.int_bounds_init_raises", dict(err=f"{type(e).__name__}: {str(e)[:160]}"))
+        iden = None
+    if iden is not None:
+        ioff = [(a + b) / 2 for a, b in zip(ILO, IHI)]
+        isc = [(b - a) / 2 for a, b in zip(ILO, IHI)]
+        itol = [8 * EPS * (onp.abs(o) + onp.abs(s) + 1) for o, s in zip(ioff, isc)]
+        i_min = iden.apply(mones)
+        if same_struct(i_min, "denorm.int_bounds_apply"):
+            close(i_min, ILO, itol, "denorm.int_bounds_minus_one_to_min")
+            close(iden.apply(ones), IHI, itol, "denorm.int_bounds_plus_one_to_max")
+            iy = iden.apply(x)
+            close(iy, [xx * s + o for xx, s, o in zip(X, isc, ioff)], itol, "denorm.int_bounds_apply_value")
+            iback = iden.inv(iy)
+            if same_struct(iback, "denorm.int_bounds_inv"):
+                close(iback, X, [8 * EPS * (onp.abs(o) / s + onp.abs(xx) + 1) for o, s, xx in zip(ioff, isc, X)], "denorm.int_bounds_roundtrip")
+
     # ---- Exponential
     ex = Exponential.init()
     x20 = jax.tree_util.tree_map(lambda a: a * 20.0, x)
